@@ -268,6 +268,9 @@ func (f *Fragment) Encode(w io.Writer) error {
 		if err != nil {
 			return err
 		}
+		if traf.Senc != nil {
+			setSencSaioOffset(f.Moof) // tfhd and trun in front of the senc box may have changed size
+		}
 	}
 	if f.Mdat == nil {
 		return fmt.Errorf("mdat not set in fragment")
@@ -292,6 +295,9 @@ func (f *Fragment) EncodeSW(sw bits.SliceWriter) error {
 		err := traf.OptimizeTfhdTrun()
 		if err != nil {
 			return err
+		}
+		if traf.Senc != nil {
+			setSencSaioOffset(f.Moof) // tfhd and trun in front of the senc box may have changed size
 		}
 	}
 	if f.Mdat == nil {
